@@ -64,8 +64,24 @@ CLAIMED = {
    technique="bounded-exhaustive enumeration: every subset of the 14 file types x every evidence subset round-tripped; every byte position x 255 values, every truncation and 256 extensions of representative blobs; forged magics/versions",
    text="All 16 384 file subsets x 8 evidence subsets export/import with byte-identical files, equal parsed views and evidence values (expected values are what the harness put in); 35 blobs (quick) swept completely: each single-byte change is rejected or imports identical content; foreign magic and newer versions rejected at every nesting level.",
    note="file contents from the reflds generators; views compared by reflect.DeepEqual against a stable double parse"),
+ "C02": dict(level="model_checking", ref="§4 C02",
+   technique="explicit enumeration of the complete finite product of per-step outcomes (324 real Session values) and of the completeness product on the real Summary/VerifiedChipAuthStatus/Document.Verify, plus enumerated hostile chip personalities end to end (live and offline)",
+   text="All 324 combinations of {PA, CardSecurity PA, AA, PACE-CAM, CA, completeness} outcomes are built as real structs and evaluated; the statement's implications are written independently. Document.Verify is evaluated on the full {DG14/DG15 stored x listed x CardAccess relation} product built from genuinely issued files. Hostile personalities (clone without key, substituted key pair, withheld DG, CardAccess not in DG14) x access control x mechanism are read by the real Reader and re-verified offline.",
+   note="a clone copying genuine data may be 'trusted' (data is genuine) - only the chip-authentic verdict is demanded to be none"),
+ "C08": dict(level="exploration", ref="§4 C08",
+   technique="configuration-lattice enumeration: every two-factor slice of a 13-dimensional lattice plus complete sub-lattices, each configuration read end to end by the real Reader from the independent genuinely issued chip",
+   text="~9000 (quick) distinct chip/terminal configurations: all value pairs of every two dimensions (access control, password, curve, suite, DG subset, CA, AA, file size, maxLe, Le cap, extended length, issuer trust, SkipImages) and complete {DG subset x CA x AA x SkipImages}, {size x maxLe x cap x extended} slices; oracle from the chip's truth: files byte-identical, listed DGs present, access control and strongest chip-authentication mechanism reported successful, PA <=> issuer trusted.",
+   note="success demanded only inside the region the transport supports (stated in the evidence assumptions); higher-order interactions beyond pairs only inside the complete slices"),
+ "C11": dict(level="fault_enumeration", ref="§4 C11",
+   technique="exhaustive fault enumeration: every exchange index x every fault kind (D=1), all ordered fault pairs (D=2) on the smallest configuration, each run to completion on the real Reader against the independent chip",
+   text="For each configuration every exchange k of the fault-free read x 14 fault kinds is executed; oracle from the chip's own truth: no escaping panic, no livelock (horizon), every returned file identical to the chip's, no protocol reported successful that the chip did not complete, DataTrusted only with genuine files from a trusted issuer.",
+   note="faults act on response bytes on the wire; plaintext CardAccess corruption is undetectable by any implementation and exempted for unprotected exchanges"),
+ "C14": dict(level="exploration", ref="§4 C14",
+   technique="enumeration of genuine sessions over the mechanism matrix and, per session, of every evidence field x the value-changing mutation set (every bit, zeroed, shortened, extended, other session, +-1, other OIDs), re-serialised by the library's writer and verified offline",
+   text="51 (quick) / 150+ genuine live sessions (CA, PACE-CAM, AA-RSA, AA-ECDSA over curves and suites) are exported and verified offline: all verdicts equal the live ones. Every evidence field mutation must make the corresponding verdict unsuccessful (documented joint ChipKaPub+EcadIC replacement asserted to pass); every bit of every data-group file flipped must fail PA or parsing.",
+   note="EF.SOD byte sweeps are C01 (unauthenticated wrapper bytes may legitimately change); an appended byte after a complete DER ECDSA signature is representation-only"),
 }
-PENDING_REASON = "check not built yet in this session (planned in DESIGN.md §4); no claim is made until its machinery exists and is green on the unchanged tree"
+PENDING_REASON = "check still being built (DESIGN.md §4); no claim is made until its machinery exists and is green on the unchanged tree"
 
 checks = []
 for p in props:
